@@ -79,6 +79,9 @@ def case_strategy(draw):
         st.tuples(st.just("advance"), st.sampled_from([0, 1, 50, 99, 100, 101, 299, 300, 301, 499, 500, 501, 2500])),
         st.tuples(st.just("advance"), st.sampled_from([0, 1, 50, 99, 100, 101, 299, 300, 301, 499, 500, 501, 2500])),
         st.tuples(st.just("setvar"), dur(max_pulse_ms).filter(lambda x: x >= 0)),
+        # the shared power supply is busy (another coil pulsed) and an enable may be postponed by up to max_wait_ms
+        st.tuples(st.just("other_pulse"), st.sampled_from([20, 60, 200])),
+        st.tuples(st.just("enable_wait"), d, pp, hp, st.sampled_from([0, 30, 100, 500])),
     ).map(list)
     return {"cfg": cfg, "ops": draw(st.lists(op, min_size=2, max_size=30))}
 
@@ -148,7 +151,7 @@ class Limits:
 
 def check(case):
     cfg = case["cfg"]
-    patches = {"coils": {"c": coil_config(cfg)},
+    patches = {"coils": {"c": coil_config(cfg), "c2": {"number": "2"}},
                "coil_player": {}}
     # coil_player entries are generated per op below (one event per op index)
     for i, op in enumerate(case["ops"]):
@@ -290,6 +293,15 @@ def check(case):
                 elif k == "enable":
                     why = lim.must_refuse("enable", op[1], op[2], op[3])
                     coil.enable(pulse_ms=op[1], pulse_power=op[2], hold_power=op[3])
+                elif k == "other_pulse":
+                    why = []
+                    m.coils["c2"].pulse(op[1])
+                elif k == "enable_wait":
+                    why = lim.must_refuse("enable", op[1], op[2], op[3])
+                    busy = m.coils["c"].config["psu"]._busy_until       # pylint: disable=protected-access
+                    if not why and op[4] and busy and rig.now < busy <= rig.now + op[4] / 1000.0:
+                        classes.add("enable postponed by the busy power supply")
+                    coil.enable(pulse_ms=op[1], pulse_power=op[2], hold_power=op[3], max_wait_ms=op[4])
                 elif k == "timed_enable":
                     why = lim.must_refuse("timed_enable", op[3], op[4], op[2], op[1])
                     coil.timed_enable(timed_enable_ms=op[1], hold_power=op[2], pulse_ms=op[3], pulse_power=op[4])
@@ -337,12 +349,12 @@ def check(case):
             new = rec[n0:]
             own = [r for r in new if r["call"] != "disable" and r["i"] == i]
             errors = raised is not None or len(rig.exceptions) > e0
-            if k not in ("advance", "setvar", "disable", "ev_disable"):
+            if k not in ("advance", "setvar", "disable", "ev_disable", "other_pulse"):
                 if any(isinstance(x, (int, float)) and x is not None and (x < 0) for x in op[1:] if not isinstance(x, str)) or why:
                     classes.add("negative-or-over-limit-request")
                 if pending:
                     classes.add("request-while-timer-or-hold-pending")
-            if why and k not in ("advance", "setvar"):
+            if why and k not in ("advance", "setvar", "other_pulse"):
                 if own:
                     v("not-refused:" + why[0].replace(" ", "_"), "request %r must be refused (%s) but reached the driver: %r" % (
                         op, ", ".join(why), [(r["call"], r["args"]) for r in own]))
